@@ -275,7 +275,15 @@ Proof. vm_compute. reflexivity. Qed.
      own_shot val n layout cs   Model/SimLoopOwn.v: a fresh BinaryCircuit(n, layout) (C11's builder model bstep + do_instr) fed the
                        calls cs with that gate set, then statevector()'s view of the stored list;
      own_run val L circ psi     the abstract run of theorems 9-11 (RelabelMain.run) at the instantiation C08_run_is_spec_vocabulary
-                       spells out;  own_circ val theta dur used data: the physical circuit read off the instruction list. *)
+                       spells out;  own_circ val theta dur used data: the physical circuit read off the instruction list.
+
+   OF THE LIST ABOVE ("still decided only by the correspondence / oracle runs") these items become theorems about the models:
+     - run_is_spec for whole circuits, index class, any deterministic gate set (17), through the builder model of C11 and the
+       backend model of C02;  - measure / barrier / other instructions and delays on unused labels issue no call (14: own_calls);
+     - direction: made explicit -- the run model's op2 carries the direction bit (control label < target label) and gate2 / next2
+       are what the code does in that direction; relabelling needs dir_kept (18), and 21 shows that it cannot be dropped.
+   Still hypotheses / oracle-only: both measured sets give the same layout (hypothesis of 19); gate sets that draw random numbers;
+   whole runs of the layered classes (their calls: 15; their builders and backends: C03 / C01). *)
 From Coq Require Import NArith ZArith Permutation Lia.
 Require Import QG.Base.Res QG.Model.SimRun QG.Model.NoiseFreeRun QG.Model.SimLoop QG.Model.SimLoopLayered QG.Model.SimLoopOwn.
 Require Import QG.Proofs.OptimizerSem QG.Proofs.SimLoop QG.Proofs.SimLoopOwn QG.Proofs.SimLoopOwnRun QG.Proofs.SimLoopOwnSpec.
@@ -341,9 +349,7 @@ Theorem C08_calls_own_params_layered :
    | G2 k c t => (c < nq)%nat -> filter (is_LC A D) (group_calls A D nq g) = [LC (C2 k c t (N.of_nat c) (N.of_nat t))]
    | SimLoopLayered.GRelax q d => (q < nq)%nat -> filter (is_LC A D) (group_calls A D nq g) = [LC (CRelax q d (N.of_nat q))]
    end).
-Proof.
-  intros A D theta dur. split; [exact (groups_are_own A D theta dur)|]. split; [exact (lcalls_own A D) | exact (group_one_call A D)].
-Qed.
+Proof. exact calls_own_params_layered. Qed.
 Print Assumptions C08_calls_own_params_layered.
 
 Theorem C08_own_lparams_vocabulary :
